@@ -7,6 +7,7 @@ by tools/harness/c07.py.  `ValidDendro n D` (Spec/Dendro.lean) is the executable
 -/
 import SkNet.Lemmas.GetDendro
 import SkNet.Lemmas.Valid
+import SkNet.Lemmas.Paris
 
 namespace SkNet.C07
 open SkNet SkNet.Dendro SkNet.Hier
@@ -84,5 +85,93 @@ example : WF (.node [.node [.leaf 0, .leaf 1], .node [.leaf 2, .leaf 3], .node [
       .node [.leaf 4, .leaf 5, .leaf 6]])).toOption.map (fun rows => ValidDendro 7 rows && lastSizeIs 7 rows)
       = some true := by
   refine ⟨by simp [WF, WFL], by decide⟩
+
+
+/-! ### Paris -/
+
+section paris
+open SkNet.Paris SkNet.Agg
+variable {α : Type} [Add α] [Mul α] [Div α] [OfNat α 0] [OfNat α 1] [OfNat α 2] [LT α] [DecidableLT α] [BEq α]
+
+omit [Add α] [Mul α] [Div α] [OfNat α 1] [OfNat α 2] [LT α] [DecidableLT α] [BEq α] in
+theorem pinv_init (csr : List (List (Nat × α))) (outW inW : List α) :
+    PInv csr.length (AggGraph.init csr outW inW) [] [] (liveInit (List.replicate csr.length 1)) := by
+  have hsz : (AggGraph.init csr outW inW).sizes = (List.range csr.length).map fun i => (i, 1) := rfl
+  refine ⟨rfl, ?_, rfl, ?_, ?_, by simp, by simp, ?_⟩
+  · have := linv_init (List.replicate csr.length 1)
+    simpa using this
+  · intro x s hx
+    rw [hsz] at hx
+    by_cases hlt : x < csr.length
+    · rw [get?_map_range (fun _ => 1) csr.length x hlt] at hx
+      rw [liveInit_get? _ x hlt]; exact hx
+    · have : Dict.get? ((List.range csr.length).map fun i => (i, 1)) x = none := by
+        rw [Dict.get?_eq_none_iff]; simp [Dict.keys, Function.comp_def]; omega
+      rw [this] at hx; cases hx
+  · rw [hsz]; simp [Dict.keys, Function.comp_def, List.nodup_range]
+  · rw [hsz]; simp [liveInit]
+
+/-- **Paris** (`paris_valid_partial`): whenever the nearest-neighbour chain returns — it is run with fuel in the
+    model; its termination is not proved — the dendrogram written by `Paris.fit` before the optional reordering
+    (the merges of reciprocal nearest neighbours, then the joins of the connected components at infinite
+    height) is a valid dendrogram over the `n` nodes: `n-1` rows, every row merges two distinct live clusters and
+    carries the number of nodes below.  This holds for every scalar type, every rounding and every weights: the
+    bookkeeping does not depend on the similarities. -/
+theorem paris_valid_partial (round32 : α → α) (fuel : Nat) (csr : List (List (Nat × α))) (outW inW : List α)
+    {rows : List (Row (HInf α))}
+    (h : fitRows round32 fuel (AggGraph.init csr outW inW) = .ok (some rows)) :
+    ValidDendro csr.length rows = true := by
+  unfold fitRows at h
+  obtain ⟨res, hres, h⟩ := bind_ok h
+  cases res with
+  | none => simp [pure, Except.pure] at h
+  | some st =>
+    simp only at h
+    obtain ⟨rows', hj, h⟩ := bind_ok h
+    simp only [pure, Except.pure, Except.ok.injEq, Option.some.injEq] at h
+    subst h
+    obtain ⟨L, hp, hsz⟩ := chainLoop_pinv (n := csr.length) round32 fuel _ st _ (pinv_init csr outW inW) hres
+    unfold joinComponents at hj
+    split at hj
+    · cases hj
+    · rename_i node0 size0 restRev hrev
+      simp only [Except.ok.injEq] at hj
+      subst hj
+      have hcomps : st.comps = restRev.reverse ++ [(node0, size0)] := by
+        have := congrArg List.reverse hrev
+        simpa using this
+      have hnd := hp.compsNodup
+      rw [hcomps] at hnd
+      simp only [List.map_append, List.map_cons, List.map_nil] at hnd
+      have hnd' := List.nodup_append.mp hnd
+      have hlast := hp.compsOK (node0, size0) (by rw [hcomps]; simp)
+      obtain ⟨L', g1, g2⟩ := join_spec csr.length restRev.reverse st.rows node0 size0 L hp.live hp.linv hlast.1
+        (by
+          intro p hpm
+          refine ⟨(hp.compsOK p (by rw [hcomps]; exact List.mem_append_left _ hpm)).1, ?_⟩
+          intro e
+          exact hnd'.2.2 p.1 (List.mem_map.mpr ⟨p, hpm, rfl⟩) node0 (by simp) e)
+        hnd'.1
+      rw [← hp.next] at g1 g2
+      unfold ValidDendro ValidDendroW
+      simp only [List.length_replicate, Bool.and_eq_true, beq_iff_eq]
+      refine ⟨?_, ?_⟩
+      · have hc := hp.count
+        rw [hsz, hcomps] at hc
+        have hl := (liveAfter_linv st.rows 0 _ L (linv_init (List.replicate csr.length 1))
+          (by simpa using hp.live)).2
+        simp only [liveInit, List.length_map, List.length_range, List.length_replicate, List.length_append,
+          List.length_cons, List.length_nil, List.length_reverse] at hc hl g2
+        omega
+      · rw [validLoop_eq_isSome, g1]; rfl
+
+/-- non-vacuity: the chain returns on a weighted path of three nodes plus an isolated node (integer scalars are
+    enough to run the bookkeeping), and the result is a valid dendrogram with one join at infinite height -/
+example : (fitRows (α := Int) id 100
+      (AggGraph.init [[(1, 30)], [(0, 30), (2, 10)], [(1, 10)], []] [1, 1, 1, 1] [1, 1, 1, 1])).toOption.map
+      (fun o => o.map fun rows => (rows.map fun r => (r.i, r.j, r.s), ValidDendro 4 rows))
+    = some (some ([(1, 0, 2), (4, 2, 3), (5, 3, 4)], true)) := by decide
+
+end paris
 
 end SkNet.C07
